@@ -1,11 +1,16 @@
 import Driver.Util
 import Verif.Gen.Currency
+import Verif.Model.CurrencySpec
 import Verif.Model.Msgp
-/-! Model driver of suite c18 (`modeld currency`): evaluates the definitions GENERATED from currency.go
-(`Verif/Gen/Currency.lean`) on the op lines of go/harness/suite_c18.go, so the correspondence run also validates the
-translator against the compiled Go. Op language and output format: see suite_c18.go. -/
+/-! Model driver of suite c18 (`modeld currency`). For every op it evaluates the hand-written SPECIFICATION
+(`Verif/Model/CurrencySpec.lean`) — this is what the implementation's output is compared with — and, when the function
+was translated, also the definition GENERATED from currency.go (`Verif/Gen/Currency.lean`, through the `run_*` hooks,
+which are `none` for a function the translator rejected). If the two disagree the output line says so
+(`gen-spec-mismatch …`), which shows up as a correspondence difference with the concrete operands: that is the
+counter-example to a bridge theorem `Gen.f = Spec.f`, or a translator error. Op language: see suite_c18.go. -/
 namespace Driver.Currency
 open Verif.GoSem Verif.F64 Verif.Dec Verif.Gen.Currency Driver
+open Verif.Spec.Currency (msgErrs)
 
 def u64? (s : String) : Option (BitVec 64) := do
   let n ← s.toNat?
@@ -31,6 +36,18 @@ def out {α : Type} (show_ : α → String) : Res ErrKind α → String
   | .err e => errStr e
   | .panic => "panic"
 
+def outS {α : Type} (show_ : α → String) : Res String α → String
+  | .ok a => "ok " ++ show_ a
+  | .err m => "err " ++ (m.map (fun c => if c = ' ' then '_' else c))
+  | .panic => "panic"
+
+/-- specification result, cross-checked against the generated definition when there is one -/
+def both {α : Type} (show_ : α → String) (spec : Res String α) (gen : Option (Res ErrKind α)) : String :=
+  let s := outS show_ spec
+  match gen with
+  | none => s
+  | some g => let t := out show_ g; if t = s then s else "gen-spec-mismatch gen=[" ++ t ++ "] spec=[" ++ s ++ "]"
+
 def ustr (b : BitVec 64) : String := toString b.toNat
 def istr (b : BitVec 64) : String := toString b.toInt
 def bstr (b : Bool) : String := if b then "true" else "false"
@@ -42,28 +59,27 @@ def dec? (c e : String) : Option Dec := do
 
 def run (w : List String) : Option String :=
   match w with
-  | ["mul", a, b] => do let a ← u64? a; let b ← u64? b; pure (out ustr (MultCoin a b))
-  | ["add", a, b] => do let a ← u64? a; let b ← u64? b; pure (out ustr (AddCoin a b))
-  | ["sub", a, b] => do let a ← u64? a; let b ← u64? b; pure (out ustr (MinusCoin a b))
-  | ["min", a, b] => do let a ← u64? a; let b ← u64? b; pure (out ustr (Min a b))
-  | ["addi", c, i] => do let c ← u64? c; let i ← i64? i; pure (out ustr (AddInt64 c i))
-  | ["subi", c, i] => do let c ← u64? c; let i ← i64? i; pure (out ustr (MinusInt64 c i))
+  | ["mul", a, b] => do let a ← u64? a; let b ← u64? b; pure (both ustr (Verif.Spec.Currency.multCoin msgErrs a b) (run_MultCoin a b))
+  | ["add", a, b] => do let a ← u64? a; let b ← u64? b; pure (both ustr (Verif.Spec.Currency.addCoin msgErrs a b) (run_AddCoin a b))
+  | ["sub", a, b] => do let a ← u64? a; let b ← u64? b; pure (both ustr (Verif.Spec.Currency.minusCoin msgErrs a b) (run_MinusCoin a b))
+  | ["min", a, b] => do let a ← u64? a; let b ← u64? b; pure (both ustr (Verif.Spec.Currency.min a b) (run_Min a b))
+  | ["addi", c, i] => do let c ← u64? c; let i ← i64? i; pure (both ustr (Verif.Spec.Currency.addInt64 msgErrs c i) (run_AddInt64 c i))
+  | ["subi", c, i] => do let c ← u64? c; let i ← i64? i; pure (both ustr (Verif.Spec.Currency.minusInt64 msgErrs c i) (run_MinusInt64 c i))
   | ["dist", c, i] => do
     let c ← u64? c; let i ← i64? i
-    pure (out (fun (p : Coin × Coin) => ustr p.1 ++ " " ++ ustr p.2) (DistributeCoin c i))
-  | ["i2c", i] => do let i ← i64? i; pure (out ustr (Int64ToCoin i))
-  | ["c2i", c] => do let c ← u64? c; pure (out istr (Coin_Int64 c))
-  | ["f2c", x] => do let x ← f64? x; pure (out ustr (Float64ToCoin x))
-  | ["mulf", c, x] => do let c ← u64? c; let x ← f64? x; pure (out ustr (MultFloat64 c x))
-  | ["c2f", c] => do let c ← u64? c; pure (out fstr (Coin_Float64 c))
-  | ["parse", x, dc, de] => do let x ← f64? x; let d ← dec? dc de; pure (out ustr (ParseZCN x d))
-  | ["tozcn", c] => do let c ← u64? c; pure (out fstr (Coin_ToZCN c))
+    pure (both (fun (p : Coin × Coin) => ustr p.1 ++ " " ++ ustr p.2) (Verif.Spec.Currency.distributeCoin msgErrs c i) (run_DistributeCoin c i))
+  | ["i2c", i] => do let i ← i64? i; pure (both ustr (Verif.Spec.Currency.int64ToCoin msgErrs i) (run_Int64ToCoin i))
+  | ["c2i", c] => do let c ← u64? c; pure (both istr (Verif.Spec.Currency.coinInt64 msgErrs c) (run_Coin_Int64 c))
+  | ["f2c", x] => do let x ← f64? x; pure (both ustr (Verif.Spec.Currency.float64ToCoin msgErrs x) (run_Float64ToCoin x))
+  | ["mulf", c, x] => do let c ← u64? c; let x ← f64? x; pure (both ustr (Verif.Spec.Currency.multFloat64 msgErrs c x) (run_MultFloat64 c x))
+  | ["c2f", c] => do let c ← u64? c; pure (both fstr (Verif.Spec.Currency.coinFloat64 c) (run_Coin_Float64 c))
+  | ["parse", x, dc, de] => do let x ← f64? x; let d ← dec? dc de; pure (both ustr (Verif.Spec.Currency.parseZCN msgErrs x d) (run_ParseZCN x d))
+  | ["tozcn", c] => do let c ← u64? c; pure (both fstr (Verif.Spec.Currency.toZCN msgErrs c) (run_Coin_ToZCN c))
   | ["rt", c, dc, de] => do
     let c ← u64? c; let d ← dec? dc de
-    pure (match Coin_ToZCN c with
-      | .ok f => out ustr (ParseZCN f d)
-      | .err e => errStr e
-      | .panic => "panic")
+    pure (match Verif.Spec.Currency.toZCN msgErrs c with
+      | .ok f => both ustr (Verif.Spec.Currency.parseZCN msgErrs f d) (run_ParseZCN f d)
+      | r => outS fstr r)
   -- ops that pin the float model itself to the compiled Go arithmetic
   | ["fmul", x, y] => do let x ← f64? x; let y ← f64? y; pure ("ok " ++ fstr (F64.mul x y))
   | ["flt", x, y] => do let x ← f64? x; let y ← f64? y; pure ("ok " ++ bstr (F64.lt x y))
